@@ -1470,6 +1470,10 @@ class SmtLibParser(object):
         params = []
         cur = tokens.consume()
         while cur != ')':
+            if cur == '(':
+                raise PysmtSyntaxError("Unexpected '(' in the parameters of "
+                                       "%s command." % current,
+                                       tokens.pos_info)
             params.append(cur)
             cur = tokens.consume()
 
